@@ -7,6 +7,7 @@ bytes to a big integer little-endian, etc. — what the model assumes about them
 A reviewer's list of edits that an earlier, looser extraction did not see is kept as tools/translator_selftest.py.
 -/
 import WowSrp.Gen.Constants
+import WowSrp.Gen.Facts
 namespace WowSrp
 
 def expected_glueWrath : List (List String) := [["fnencrypt(&mutself,data:&mut[u8]) {self.encrypt.apply(data);}", "fnwrite_encrypted_server_header<W:Write>(&mutself,mutwrite:W,size:u32,opcode:u16,)->std::io::Result<()> {letbuf=self.encrypt_server_header(size,opcode);write.write_all(buf)?;Ok(())}", "fnencrypt(&mutself,data:&mut[u8]) {self.encrypt.apply(data);}", "fnwrite_encrypted_client_header<W:Write>(&mutself,mutwrite:W,size:u16,opcode:u32,)->std::io::Result<()> {letbuf=self.encrypt_client_header(size,opcode);write.write_all(&buf)?;Ok(())}", "fnset_large_header(v:u8)->u8 {v|0x80}", "fndecrypt(&mutself,data:&mut[u8]) {self.decrypt.apply(data);}", "fnread_and_decrypt_client_header<R:Read>(&mutself,mutreader:R,)->std::io::Result<ClientHeader> {letmutbuf=[0_u8;CLIENT_HEADER_LENGTHasusize];reader.read_exact(&mutbuf)?;Ok(self.decrypt_client_header(buf))}", "fndecrypt(&mutself,data:&mut[u8]) {self.decrypt.apply(data);}", "fndecrypt_large_server_header(&mutself,byte:u8)->ServerHeader {letmutbuf=[byte];self.decrypt.apply(&mutbuf);letbuf=[self.header[0],self.header[1],self.header[2],self.header[3],buf[0],];ServerHeader::from_large_array(buf)}", "fnread_and_decrypt_server_header<R:Read>(&mutself,mutreader:R,)->std::io::Result<ServerHeader> {letmutbuf=[0_u8;4];reader.read_exact(&mutbuf)?;Ok(matchself.attempt_decrypt_server_header(buf){WrathServerAttempt::Header(h)=>h,WrathServerAttempt::AdditionalByteRequired=>{letmutbuf=[0_u8;1];reader.read_exact(&mutbuf)?;self.decrypt_large_server_header(buf[0])}})}", "fnclear_large_header(v:u8)->u8 {v&0x7F}", "fnlarge_header(v:u8)->bool {v&0x80!=0}", "fnapply(&mutself,data:&mut[u8]) {self.inner.apply_keystream(data);}"]]
